@@ -363,6 +363,19 @@ func checkMain(args []string) int {
 	for _, n := range best {
 		distinct += n
 	}
+	var inputCases int64
+	bestShapes := map[string]int{}
+	for _, r := range reports {
+		inputCases += r.Cases
+		if r.NShapes > bestShapes[r.Scenario] {
+			bestShapes[r.Scenario] = r.NShapes
+		}
+	}
+	shapeClasses := 0
+	for _, n := range bestShapes {
+		shapeClasses += n
+	}
+	distinct += shapeClasses
 	var warnings []string
 	for _, sc := range scs {
 		if _, ran := best[sc.Name]; !ran {
@@ -389,9 +402,11 @@ func checkMain(args []string) int {
 		"states":                        states,
 		"transitions":                   transitions,
 		"traces_validated_against_impl": execs,
-		"evaluations":                   execs,
+		"evaluations":                   execs + inputCases,
+		"input_cases":                   inputCases,
+		"distinct_shape_classes":        shapeClasses,
 		"distinct_nontrivial":           distinct,
-		"rule":                          "stateless depth-first enumeration of all choice sequences (thread schedule, select case, environment answer, driver alphabet) of each scenario within the stated deviation bounds (d = non-default scheduling choices, f = non-default environment answers; driver choices are enumerated completely); every execution runs the real instrumented hslam/rpc code to quiescence and is judged by the scenario oracle. states = decision points first reached by an execution, transitions = scheduled operations, distinct_nontrivial = distinct happens-before signatures (order-independent hash of (thread path, op index, object, object version) tuples, i.e. distinct Mazurkiewicz traces) summed over scenarios",
+		"rule":                          "stateless depth-first enumeration of all choice sequences (thread schedule, select case, environment answer, driver alphabet) of each scenario within the stated deviation bounds (d = non-default scheduling choices, f = non-default environment answers; driver choices are enumerated completely); every execution runs the real instrumented hslam/rpc code to quiescence and is judged by the scenario oracle. states = decision points first reached by an execution, transitions = scheduled operations, distinct_nontrivial = distinct happens-before signatures (order-independent hash of (thread path, op index, object, object version) tuples, i.e. distinct Mazurkiewicz traces) summed over scenarios, plus (input-enumeration scenarios) the number of distinct shape classes (encoder x message kind x per-field length bucket x buffer class x outcome) of the enumerated input cases",
 		"samples":                       samples,
 		"exhaustive":                    exhaustive,
 		"scenarios":                     reports,
